@@ -177,6 +177,7 @@ def p_abs(itp, name, args, kw, node, st):
     if n.seg is not None:
         from .interp_expr import relabel
         r.seg = relabel(n.seg)
+        r.segax = n.segax
     USED.add('abs: |c^p conj(c)^q v| = |c|^(p+q) |v|  (phase exponent -> 0), result real >= 0')
     return r
 
@@ -190,6 +191,7 @@ def p_conj(itp, name, args, kw, node, st):
     if n is None:
         return mk(itp, 'conj', v)
     r = n.copy()
+    r.mirror = not n.mirror
     if n.log is None and not n.zero:
         r.deg['g'] = dneg(n.deg['g'])
         r.deg['gy'] = dneg(n.deg['gy'])
@@ -233,8 +235,14 @@ def p_sum(itp, name, args, kw, node, st):
         sh = list(n.shape)
         if -len(sh) <= axis.v < len(sh):
             itp.events.append(('reduce', node, name, axis.v % len(sh), tuple(n.shape)))
+            axn = axis.v % len(sh)
             del sh[axis.v]
             r.shape = tuple(sh)
+            src = args[0] if isinstance(args[0], Num) else None
+            if src is not None and src.seg is not None and axn != src.segax:
+                from .interp_expr import relabel
+                r.seg = relabel(src.seg)
+                r.segax = src.segax - (1 if axn < src.segax else 0)
         else:
             itp.unsupported('axis out of range in %s' % name, node)
             r.shape = None
@@ -656,8 +664,9 @@ def p_transpose(itp, name, args, kw, node, st):
         return mk(itp, 'transpose', args[0])
     r = n.copy(shape=tuple(reversed(n.shape)) if n.shape is not None else None)
     itp.events.append(('transpose', node, n.shape))
-    if n.seg is not None and n.shape is not None and len(n.shape) == 1:
+    if n.seg is not None and n.shape is not None and len(n.shape) in (1, 2):
         r.seg = list(n.seg)
+        r.segax = len(n.shape) - 1 - n.segax
     return r
 
 
@@ -897,18 +906,32 @@ def p_fft(itp, name, args, kw, node, st):
         i = ax % len(sh)
         ln = n if (nlen is not None and not (isinstance(nlen, Const) and nlen.v is None)) else sh[i]
         if base == 'rfft' and ln is not None:
-            ln = ln.scale(F(1, 2)).floor()
-            ln = (ln + 1) if ln is not None else None
+            half = ln.scale(F(1, 2)).floor()
+            if half is None:
+                # floor(ln/2) is not affine in the size symbols: name it (a fixed but unknown integer)
+                nm = 'floor(%s/2)' % ln
+                Aff.SYM_MIN[nm] = 1
+                half = Aff.sym(nm)
+            ln = half + 1
         sh[i] = ln
         r.shape = tuple(sh)
     else:
         r.shape = None
     r.taint = a.taint | taints(nlen, axis)
     itp.events.append(('fft', node, base, a.shape, nlen, ax, a))
-    if r.shape is not None and len(r.shape) == 1 and r.shape[0] is not None and base in ('fft', 'rfft'):
+    if r.shape is not None and ax is not None and len(r.shape) >= 1 and base in ('fft', 'rfft'):
         from . import segmap
-        # slot k of fft / rfft output is bin k of the n-point DFT
-        r.seg = segmap.identity('F', r.shape[0])
+        i = ax % len(r.shape)
+        if r.shape[i] is not None:
+            # slot k of fft / rfft output is bin k of the n-point DFT (frequency k*fs/n); the transform of a
+            # conjugated vector conj(v) is the mirrored, conjugated transform of v: slot k holds frequency -k
+            if a.mirror and base == 'fft':
+                L = r.shape[i]
+                r.seg = segmap.normalise([segmap.Seg(1, 'F', 0, 1), segmap.Seg(L - 1, 'F', L - 1, -1)])
+            else:
+                r.seg = segmap.identity('F', r.shape[i])
+            r.segax = i
+    r.mirror = False
     if a.conj == 'E':
         r.conj = 'M'
     USED.add('fft/rfft/ifft(a, n, axis): linear; output length n (rfft: n//2+1) along axis; zero-pads when n >= len')
@@ -935,6 +958,7 @@ def p_svd(itp, name, args, kw, node, st):
     S.nonneg = True
     S.role = 'singular'
     Vh = Num(zero_deg(), (n, n), True, taint=a.taint)
+    Vh.mirror = True        # rows of Vh are the *conjugated* right singular vectors
     USED.add('svd(A): singular values real >= 0, non-increasing, homogeneous of the magnitude degree of A and '
              'invariant under a unitary diagonal acting on the rows; singular vectors are degree 0')
     return Tup([U, S, Vh])
